@@ -139,7 +139,9 @@ def run_tlc(module, cfg, workers=16, simulate=None, depth=None, seed=None, simfi
     metadir = os.path.join(WORK, 'meta', tag)
     shutil.rmtree(metadir, ignore_errors=True)
     os.makedirs(metadir, exist_ok=True)
-    cmd = ['java', '-XX:+UseParallelGC', '-Xmx' + xmx]
+    # TLC creates a scratch directory (tlc-<n>) in java.io.tmpdir on every start: keep it inside the run's own metadir
+    # (removed below) instead of leaving one behind in /tmp per invocation
+    cmd = ['java', '-XX:+UseParallelGC', '-Xmx' + xmx, '-Djava.io.tmpdir=' + metadir]
     if dfs:
         cmd.append('-Dtlc2.tool.queue.IStateQueue=StateDeque')
     cmd += ['-cp', JAR + ':' + DEPS, 'tlc2.TLC',
